@@ -367,12 +367,12 @@ func c25decode(a *c25acc, data []byte, origin string) {
 	a.evals++
 	v, err, used, p := c25tryDecode(data)
 	if p != "" {
-		a.Violationf("decode:panic:"+origin, c25case{Bytes: vh.Hex(data)}, "DecodeValue(%x) panicked: %s", data, p)
+		a.Violationf("decode:panic:"+origin, c25case{Bytes: hex.EncodeToString(data)}, "DecodeValue(%x) panicked: %s", data, p)
 		return
 	}
 	if err != nil {
 		if v != nil {
-			a.Violationf("decode:value-and-error:"+origin, c25case{Bytes: vh.Hex(data)}, "DecodeValue(%x) returned both a value and %v", data, err)
+			a.Violationf("decode:value-and-error:"+origin, c25case{Bytes: hex.EncodeToString(data)}, "DecodeValue(%x) returned both a value and %v", data, err)
 		}
 		a.classes["decode:err:"+c25errClass(err)]++
 		return
@@ -382,7 +382,7 @@ func c25decode(a *c25acc, data []byte, origin string) {
 	p = vh.Catch(func() {
 		enc, err := EncodeValue(v)
 		if err != nil {
-			a.Violationf("reencode:error:"+tc, c25case{Bytes: vh.Hex(data)}, "value %s decoded from %x cannot be encoded: %v", c25show(v), data, err)
+			a.Violationf("reencode:error:"+tc, c25case{Bytes: hex.EncodeToString(data)}, "value %s decoded from %x cannot be encoded: %v", c25show(v), data, err)
 			return
 		}
 		if bytes.Equal(enc, data[:used]) {
@@ -392,11 +392,11 @@ func c25decode(a *c25acc, data []byte, origin string) {
 		}
 		back, err := DecodeValue(common.NewZeroCopySource(enc))
 		if err != nil || !c25eq(v, back) {
-			a.Violationf("reencode:not-equal:"+tc, c25case{Bytes: vh.Hex(data)}, "value %s decoded from %x does not survive Encode->Decode (%s, %v)", c25show(v), data, c25show(back), err)
+			a.Violationf("reencode:not-equal:"+tc, c25case{Bytes: hex.EncodeToString(data)}, "value %s decoded from %x does not survive Encode->Decode (%s, %v)", c25show(v), data, c25show(back), err)
 		}
 	})
 	if p != "" {
-		a.Violationf("reencode:panic:"+tc, c25case{Bytes: vh.Hex(data)}, "re-encoding the value decoded from %x panicked: %s", data, p)
+		a.Violationf("reencode:panic:"+tc, c25case{Bytes: hex.EncodeToString(data)}, "re-encoding the value decoded from %x panicked: %s", data, p)
 	}
 }
 
@@ -411,7 +411,7 @@ func c25framed(a *c25acc, data []byte) {
 			wantV, wantErr, _, _ = c25tryDecode(data[1:])
 		}
 		if (err != nil) != (wantErr != nil) || (err == nil && !c25eq(v, wantV)) {
-			a.Violationf("callparam:disagrees-with-decode", c25case{Bytes: vh.Hex(data), API: "DeserializeCallParam"},
+			a.Violationf("callparam:disagrees-with-decode", c25case{Bytes: hex.EncodeToString(data), API: "DeserializeCallParam"},
 				"DeserializeCallParam(%x) = %s, %v but DecodeValue of the body gives %s, %v", data, c25show(v), err, c25show(wantV), wantErr)
 		}
 		if err == nil {
@@ -427,7 +427,7 @@ func c25framed(a *c25acc, data []byte) {
 		}
 	})
 	if p != "" {
-		a.Violationf("framed:panic", c25case{Bytes: vh.Hex(data)}, "DeserializeCallParam/DeserializeNotify(%x) panicked: %s", data, p)
+		a.Violationf("framed:panic", c25case{Bytes: hex.EncodeToString(data)}, "DeserializeCallParam/DeserializeNotify(%x) panicked: %s", data, p)
 	}
 }
 
